@@ -614,7 +614,8 @@ func verifContextAdjacent(a, b JsonNode) bool {
 		}
 		cur = next
 	}
-	return true
+	// "the result": hunk by hunk the diff has turned a into b
+	return cur.Equals(b)
 }
 
 func verifArrayAt(n JsonNode, p Path) ([]JsonNode, bool) {
